@@ -33,6 +33,7 @@ type srvCfg struct {
 	lateConn   bool   // C15: a connection opened after all faults
 	bigMsgs    bool
 	yields     bool // park serve loops at yield sites
+	extraReg   bool // register unrelated handlers while the server runs
 }
 
 type plan struct {
@@ -109,6 +110,7 @@ type srvWorld struct {
 	regHist map[int]refRegs
 	needClock bool
 	reregLeft int
+	extraRegLeft int
 	yieldsOff atomic.Bool
 	trailingHandled int
 }
@@ -492,6 +494,11 @@ func (pc *peerConn) limit() int {
 
 // run drives the world until every planned byte is delivered and every handler released.
 func (w *srvWorld) run() {
+	w.runInner()
+	w.teardown()
+}
+
+func (w *srvWorld) runInner() {
 	e, t, cfg := w.e, w.e.T, w.cfg
 	e.maxStep = 300
 	if e.Thorough {
@@ -505,6 +512,9 @@ func (w *srvWorld) run() {
 		}
 	} else {
 		w.register("all", 0, 0, false, "")
+		if cfg.extraReg {
+			w.extraRegLeft = t.Draw(4)
+		}
 	}
 	total := cfg.nConns + cfg.nDialled
 	for i := 0; i < total; i++ {
@@ -566,6 +576,9 @@ func (w *srvWorld) run() {
 		}
 		if w.needClock {
 			acts = append(acts, act{kind: "clock", w: 6})
+		}
+		if w.extraRegLeft > 0 && nActive == 0 && len(w.yielded) == 0 {
+			acts = append(acts, act{kind: "reg-extra", w: 2})
 		}
 		if cfg.rereg && w.reregLeft > 0 && nActive == 0 && len(w.yielded) == 0 {
 			acts = append(acts, act{kind: "rereg", w: 2})
@@ -641,7 +654,19 @@ func (w *srvWorld) run() {
 			}
 		case "rereg":
 			w.reregLeft--
-			w.reRegister()
+			if !w.regTask(w.reRegister) {
+				return
+			}
+		case "reg-extra":
+			w.extraRegLeft--
+			n := w.extraRegLeft
+			if !w.regTask(func() {
+				w.mux.HandleFunc(fmt.Sprintf("Q%dR", n), func(diam.Conn, *diam.Message) {})
+			}) {
+				return
+			}
+			e.Act("reg-extra", "Q%dR", n)
+			e.Probe("runtime-registration")
 		}
 		if !w.quiesceAndCheck() {
 			return
@@ -912,7 +937,6 @@ func (w *srvWorld) drain() {
 			progress = true
 		}
 		if !w.quiesceAndCheck() {
-			w.teardown()
 			return
 		}
 		if !progress {
@@ -938,14 +962,12 @@ func (w *srvWorld) drain() {
 				w.release(inv)
 			}
 			if !w.quiesceAndCheck() {
-				w.teardown()
 				return
 			}
 		}
 		e.Probe("late-connection")
 	}
 	w.finalChecks()
-	w.teardown()
 }
 
 func (w *srvWorld) teardown() {
@@ -1291,4 +1313,22 @@ func (w *srvWorld) unyield(yp *yieldPark) {
 	w.mu.Unlock()
 	w.e.Act("unyield", "%s", yp.site)
 	close(yp.ch)
+}
+
+// regTask performs a registration on its own goroutine (it takes the mux write
+// lock, which a misbehaving library may never grant) and requires it to finish
+// by the next quiescent point.
+func (w *srvWorld) regTask(f func()) bool {
+	done := make(chan struct{})
+	w.e.forceDump = true
+	go func() { f(); close(done) }()
+	w.e.Quiesce()
+	select {
+	case <-done:
+		w.e.forceDump = false
+		return true
+	default:
+		w.e.Fail(w.cfg.prop+"/registration-blocked", "registering a handler while no handler was running did not return (the dispatcher lock is held)")
+		return false
+	}
 }
